@@ -25,7 +25,7 @@ func init() {
 			"R18.6: explicit panics in the YAML decoder are the tryError idiom only, raised below a deferred recover that converts them to an error; the panicking helpers are reachable only from there. " +
 			"R18.7: AEAD discipline — the nonce comes from crypto/rand through a checked ReadFull and is the one given to Seal; Open's error is returned (tamper / wrong key ⇒ error); the version byte is tested before Open; the inner decoder sees only what Decrypt returned without error. " +
 			"R18.8: framing constants agree between writers and readers (compression marker/ID/offset/threshold; encryption version/nonce/header/minimum). R18.9: each marshaler layer returns the inner layer's error. " +
-			"R18.10: the zstd compressor keeps no byte buffer of its own and returns exactly the library's result for the caller-supplied prefix (records never alias compressor state).",
+			"R18.11: the zstd compressor keeps no byte buffer of its own and returns exactly the library's result for the caller-supplied prefix (records never alias compressor state).",
 		NotCovered: "decode(encode(x)) == x for all metadata/specs (behavioural over values); totality of third-party decoders (yaml, protobuf, zstd, AES-GCM); timestamp precision of the YAML text form (RFC3339 drops sub-second digits — an observation, not armed); the Version FormatUint/ParseInt range asymmetry above 2^63 (observation).",
 		Assumptions: []string{
 			"the YAML library hands UnmarshalYAML mapping nodes with an even number of children",
@@ -463,8 +463,8 @@ func runC18(c *Ctx) {
 	c.errPropagates("R18.9", p.Method(pkgStore, "ProtobufMarshaler", "MarshalResource"), 3, pkgResProto+".FromResource", "(*"+pkgResProto+".Resource).Marshal", pkgResProto+".ProtoMarshal")
 	c.errPropagates("R18.9", p.Method(pkgStore, "ProtobufMarshaler", "UnmarshalResource"), 3, pkgResProto+".ProtoUnmarshal", pkgResProto+".Unmarshal", pkgResProto+".UnmarshalResource")
 
-	// ---------- R18.10 compressor state
-	c.Rule("R18.10", "E5", "zstd compressor: no byte buffer in its state; results are the library's for the caller's prefix", 3)
+	// ---------- R18.11 compressor state
+	c.Rule("R18.11", "E5", "zstd compressor: no byte buffer in its state; results are the library's for the caller's prefix", 3)
 
 	if z := p.Named(pkgCompression, "zstdCompressor"); z != nil {
 		st := z.Underlying().(*types.Struct)
@@ -476,9 +476,9 @@ func runC18(c *Ctx) {
 			}
 		}
 
-		c.Check(bad == "", "R18.10", "zstdCompressor keeps no slice in its state", z.Obj().Pos(), "only encoder/decoder", "field "+bad+" can be handed out and overwritten by the next call")
+		c.Check(bad == "", "R18.11", "zstdCompressor keeps no slice in its state", z.Obj().Pos(), "only encoder/decoder", "field "+bad+" can be handed out and overwritten by the next call")
 
-		if f := p.Method(pkgCompression, "zstdCompressor", "Compress"); c.NeedFunc("R18.10", f, "zstd Compress") {
+		if f := p.Method(pkgCompression, "zstdCompressor", "Compress"); c.NeedFunc("R18.11", f, "zstd Compress") {
 			ok := true
 
 			for _, in := range Find(f, IsReturn) {
@@ -488,10 +488,10 @@ func runC18(c *Ctx) {
 				}
 			}
 
-			c.Check(ok, "R18.10", "Compress returns EncodeAll(data, prefix)", fpos(f), "yes", "result is not the library's output appended to the caller's prefix")
+			c.Check(ok, "R18.11", "Compress returns EncodeAll(data, prefix)", fpos(f), "yes", "result is not the library's output appended to the caller's prefix")
 		}
 
-		if f := p.Method(pkgCompression, "zstdCompressor", "Decompress"); c.NeedFunc("R18.10", f, "zstd Decompress") {
+		if f := p.Method(pkgCompression, "zstdCompressor", "Decompress"); c.NeedFunc("R18.11", f, "zstd Decompress") {
 			ok := true
 
 			for _, in := range Find(f, IsReturn) {
@@ -501,11 +501,69 @@ func runC18(c *Ctx) {
 				}
 			}
 
-			c.Check(ok, "R18.10", "Decompress returns DecodeAll(data, nil)", fpos(f), "yes", "result does not come from a fresh DecodeAll")
+			c.Check(ok, "R18.11", "Decompress returns DecodeAll(data, nil)", fpos(f), "yes", "result does not come from a fresh DecodeAll")
 		}
 	} else {
-		c.Unknown("R18.10", "anchor-unresolved: zstdCompressor", 0, "type not found")
+		c.Unknown("R18.11", "anchor-unresolved: zstdCompressor", 0, "type not found")
 	}
+
+	// ---------- R18.12 an already generic resource passes through unchanged
+	c.Rule("R18.12", "E3", "protobuf.FromResource: a resource that already is a generic *protobuf.Resource is returned as it is, whatever the options — metadata, protobuf bytes and the YAML rendering of an unregistered type reach the store marshaler and the wire unchanged", 1)
+
+	if f := p.Func(pkgResProto, "FromResource"); c.NeedFunc("R18.12", f, "protobuf.FromResource") {
+		n := 0
+
+		for _, in := range Find(f, func(in ssa.Instruction) bool {
+			ta, ok := in.(*ssa.TypeAssert)
+
+			return ok && ta.CommaOk && strings.HasSuffix(ta.AssertedType.String(), pkgResProto+".Resource")
+		}) {
+			ta := in.(*ssa.TypeAssert)
+
+			var val, okv ssa.Value
+
+			for _, r := range *ta.Referrers() {
+				if ex, isEx := r.(*ssa.Extract); isEx {
+					if ex.Index == 0 {
+						val = ex
+					} else {
+						okv = ex
+					}
+				}
+			}
+
+			if val == nil || okv == nil {
+				continue
+			}
+
+			n++
+
+			// from the ok edge, every return hands out the asserted value itself
+			starts := p.EdgeSuccs(f, "true("+p.Desc(okv)+")")
+			other := func(in ssa.Instruction) bool {
+				r, isRet := in.(*ssa.Return)
+				if !isRet || !IsReturn(in) || len(r.Results) == 0 {
+					return false
+				}
+
+				return Fwd(r.Results[0]) != val
+			}
+
+			if len(starts) == 0 {
+				c.Unknown("R18.12", FuncName(f)+" :: generic resource returned as is", in.Pos(), "anchor-unresolved: the ok edge of the type assertion was not found")
+
+				continue
+			}
+
+			bad, w := p.Reach(starts, other, CutSpec{})
+			c.Check(!bad, "R18.12", FuncName(f)+" :: generic resource returned as is", in.Pos(), "every return behind the assertion's ok edge returns the asserted value", "something else is returned for a generic resource: "+strings.Join(w, " "))
+		}
+
+		if n == 0 {
+			c.Unknown("R18.12", FuncName(f)+" :: generic resource returned as is", fpos(f), "anchor-unresolved: no `r.(*Resource)` assertion")
+		}
+	}
+
 }
 
 // decoderBounds: every constant index / slice bound on parameter prm of f is implied by a dominating guard on len(param).
